@@ -165,12 +165,17 @@ def read_raw(uri, want_cols=None):
         nrows = len(b1)
         px = [[int(b1[i]), int(b2[i]), [cv[i] for cv in colv]] for i in range(nrows)]
         off = [int(v) for v in g["indexes/bin1_offset"][:].tolist()]
+        bg = g["bins"]
+        cnames = [x.decode() if isinstance(x, bytes) else str(x) for x in g["chroms/name"][:].tolist()]
+        bch = bg["chrom"][:].tolist()
+        btab = [[cnames[int(c)] if not isinstance(c, (bytes, str)) else (c.decode() if isinstance(c, bytes) else c), int(s_), int(e_)]
+                for c, s_, e_ in zip(bch, bg["start"][:].tolist(), bg["end"][:].tolist())]
         tot = a["sum"]
         tot = int(tot) if np.issubdtype(np.asarray(tot).dtype, np.integer) else float(tot)
         return {"cols": cols, "px": px, "off": off, "sum": tot, "nnz": int(a["nnz"]),
                 "symm": str(a["storage-mode"]) == "symmetric-upper", "nbins": int(a["nbins"]),
                 "bintype": str(a["bin-type"]), "rows_on_disk": len(b1),
-                "bins_cols": sorted(g["bins"].keys())}
+                "bins_cols": sorted(g["bins"].keys()), "bins": btab}
 
 
 def coq_px(px):
@@ -195,7 +200,13 @@ def parse_obs(v):
 
 def obs_of_raw(raw):
     return {"symm": raw["symm"], "cols": [list(c) for c in raw["cols"]], "off": raw["off"],
-            "px": raw["px"], "sum": raw["sum"], "nnz": raw["nnz"]}
+            "px": raw["px"], "sum": raw["sum"], "nnz": raw["nnz"], "bins": raw.get("bins")}
+
+
+def expected_bins(ax):
+    """the bin table (chromosome name, start, end) of a fixture, as read_raw reports it"""
+    blocks, names = AXES[ax]
+    return [[names[c], s, e] for blk in blocks for (c, s, e) in blk]
 
 
 # ----------------------------------------------------------------- pixel-table generators
